@@ -314,7 +314,7 @@ class MessageManager(ClientLike):
                 self.remove_module(module)
                 return False
 
-            for m in self.modules.values():
+            for m in list(self.modules.values()):
                 if m is module:
                     continue
 
@@ -361,6 +361,10 @@ class MessageManager(ClientLike):
         Args:
             module (Module): Module object to remove
         """
+        # Nothing to do if the module was already removed
+        if self.modules.get(module.conn) is not module:
+            return
+
         # Drop all subscriptions for this module
         for msg_type in module.subs:
             self.subscriptions[msg_type].discard(module)
@@ -581,6 +585,10 @@ class MessageManager(ClientLike):
 
         for n in range(len(subscribers)):
             module = subscribers[n]
+            # Skip modules removed while handling a failure earlier in this loop
+            if module.conn not in self.modules:
+                continue
+
             if module.conn in self.wlist:
                 try:
                     if (
@@ -631,7 +639,11 @@ class MessageManager(ClientLike):
             header (MessageHeader): Message header to send
             payload (Union[bytes, MessageData]): Message data to send
         """
-        for module in self.logger_modules:
+        for module in list(self.logger_modules):
+            # Skip loggers removed while handling a failure earlier in this loop
+            if module.conn not in self.modules:
+                continue
+
             if module.conn not in self.wlist:
                 # Block until logger is ready
                 select.select([], [module.conn], [], None)
@@ -830,11 +842,15 @@ class MessageManager(ClientLike):
         msg = cd.MDF_ACTIVE_CLIENTS()
         msg.timestamp = time.perf_counter()
 
-        for i, (sock, module) in enumerate(self.modules.items()):
+        for i, (sock, module) in enumerate(list(self.modules.items())):
             # if sock == self.listen_socket:
             #     continue
-            msg.client_mod_id[i] = module.mod_id
-            msg.client_pid[i] = module.pid
+            if sock not in self.modules:
+                continue  # removed while sending an earlier CLIENT_INFO
+
+            if i < cd.MAX_ACTIVE_CLIENTS:
+                msg.client_mod_id[i] = module.mod_id
+                msg.client_pid[i] = module.pid
             self.send_client_info(module)
 
         msg.num_clients = len(self.modules) - 1
